@@ -110,7 +110,7 @@ pub fn c06_insert_decode_7_and_1bit() {
     insert_decode_one(1, Some(1));
 }
 
-// @h prop=C06 tier=thorough kind=proof timeout=3000 mem=26 unwindset="from_fn|drop_glue|drop_in_place|map:258;insert_decode:258" inst="Decoder::next on a code with a 9-bit symbol (root entry 0 is Further: what >= 512 equiprobable symbols produce)" bounds="state: no pending bits, no further chunk" desc="end of item: next() is None and does not panic"
+// @h prop=C06 tier=thorough kind=proof timeout=3000 mem=26 unwindset="drop_glue|drop_in_place:1;from_fn|Decode.*map:258;insert_decode:258" inst="Decoder::next on a code with a 9-bit symbol (root entry 0 is Further: what >= 512 equiprobable symbols produce)" bounds="state: no pending bits, no further chunk" desc="end of item: next() is None and does not panic"
 #[cfg(feature = "thorough")]
 #[cfg_attr(kani, kani::proof, kani::unwind(3))]
 pub fn c06_decoder_end_further_root() {
